@@ -326,7 +326,10 @@ func firstWords(s string) string {
 // c05Partial drives composite calls that fail half-way on permissions: a tree built by a non-administrator with hard
 // links leading out of it, some non-empty directories then protected by the administrator, then RemoveAll / MkdirAll /
 // Rename / Remove issued by the owner. The calls may fail and may leave a partial effect; the tree must stay well formed.
-func c05Partial(c *rt.Ctx, h int) {
+//
+// With returnsOnly (C07) the verdict is about termination only: the call itself and a probe of every directory afterwards
+// (Stat, ReadDir, Chmod to its own mode, as the administrator) must return.
+func c05Partial(c *rt.Ctx, h int, returnsOnly bool) {
 	r := c.Rand(fmt.Sprintf("c05-partial-%d", h))
 	v, users := newMemWithUsers()
 	root, u1 := users[0], users[1]
@@ -386,10 +389,32 @@ func c05Partial(c *rt.Ctx, h int) {
 			o = fsx.Op{K: "Remove", P: d}
 		}
 		res := do(u1, o)
+		c.Rep.Case(fmt.Sprintf("MemFS/partial|%s@user|%s", o.K, res.Err), true)
+		if returnsOnly {
+			if fatalRes(res) {
+				c.Disagree(fmt.Sprintf("MemFS/partial|%s@user|%s", o.K, res.Err), fmt.Sprintf("MemFS: %s does not return normally: %s", hist[len(hist)-1], res.Raw), replay())
+				return
+			}
+			for _, d := range dirs {
+				for _, po := range []fsx.Op{{K: "Stat", P: d}, {K: "ReadDir", P: d}, {K: "Lstat", P: d + "/a"}} {
+					if pr := do(root, po); fatalRes(pr) {
+						c.Disagree(fmt.Sprintf("MemFS/partial|%s@user|%s|then %s|%s", o.K, res.Err, po.K, pr.Err), fmt.Sprintf("MemFS: after %s, %s does not return normally: %s", hist[len(hist)-2], po, pr.Raw), replay())
+						return
+					}
+				}
+			}
+			continue
+		}
 		if fatalRes(res) {
 			return // C07's business
 		}
-		c.Rep.Case(fmt.Sprintf("MemFS/partial|%s@user|%s", o.K, res.Err), true)
+		// C07's business as well: a lock left behind by the failed call would stop the walk of the snapshot
+		for _, d := range dirs {
+			if pr := do(root, fsx.Op{K: "ReadDir", P: d}); fatalRes(pr) {
+				c.Rep.Count("histories_ended_by_panic_or_deadlock", 1)
+				return
+			}
+		}
 		post := fsx.Snap(v, "/", fsx.SnapOpts{SymSize: true})
 		if bad := post.InvariantProblems(); len(bad) > 0 {
 			c.Disagree(fmt.Sprintf("MemFS/partial|%s|%s|public-invariant:%s", o.K, res.Err, firstWords(bad[0])), fmt.Sprintf("MemFS: after %s the tree is not well formed: %v", hist[len(hist)-1], bad[:min3(4, len(bad))]), replay())
@@ -429,7 +454,7 @@ func init() {
 			}
 			for h := 0; h < c.Pick(3000, 60000); h++ {
 				if h%c.NShards == c.Shard {
-					c05Partial(c, h)
+					c05Partial(c, h, false)
 				}
 			}
 		},
